@@ -603,6 +603,73 @@ func ClauseOptions(yield func(name string, s S)) {
 	}
 }
 
+// ClauseOptionPairs yields pairs of clause options that interact in the parser's clause loop
+// (alias forms x join kinds x trailing clauses; ORDER BY forms x LIMIT / OFFSET / FETCH / FOR).
+func ClauseOptionPairs(yield func(name string, s S)) {
+	aliases := []TableRef{{Name: "t1"}, {Name: "t1", Alias: "a1"}, {Name: "t1", Alias: "a1", AsKw: true}, {Schema: "s1", Name: "t1", Alias: "a1"}}
+	joins := []string{"JOIN", "LEFT JOIN", "LEFT OUTER JOIN", "RIGHT JOIN", "FULL OUTER JOIN", "CROSS JOIN", "NATURAL JOIN", "INNER JOIN"}
+	for _, from := range aliases {
+		for _, jk := range joins {
+			for _, ra := range []TableRef{{Name: "t2"}, {Name: "t2", Alias: "a2"}, {Name: "t2", Alias: "a2", AsKw: true}} {
+				for tail := 0; tail < 5; tail++ {
+					s := Sel{Items: []SelItem{{X: Col("c1")}}, From: []TableRef{from}}
+					j := Join{Kw: jk, Right: ra}
+					if jk != "CROSS JOIN" && jk != "NATURAL JOIN" {
+						if tail%2 == 0 {
+							j.On = xp(Bin("=", Col("c1"), Col("c2")))
+						} else {
+							j.Using = []string{"c1"}
+						}
+					}
+					s.Joins = []Join{j}
+					switch tail {
+					case 1:
+						s.Where = xp(Bin(">", Col("c3"), Int("0")))
+					case 2:
+						s.GroupBy = []X{Col("c1")}
+					case 3:
+						s.OrderBy = []OrderItem{{X: Col("c1")}}
+					case 4:
+						s.Limit = ip(3)
+					}
+					yield("join-pairs", s.Build())
+				}
+			}
+		}
+	}
+	for _, d := range []string{"", "DESC"} {
+		for _, nl := range []string{"", "FIRST"} {
+			for tail := 0; tail < 7; tail++ {
+				s := Sel{Items: []SelItem{{X: Col("c1")}}, From: []TableRef{{Name: "t1"}}, OrderBy: []OrderItem{{X: Col("c1"), Dir: d, Nulls: nl}}}
+				switch tail {
+				case 1:
+					s.Limit = ip(1)
+				case 2:
+					s.Limit, s.Offset = ip(1), ip(2)
+				case 3:
+					s.Offset = ip(2)
+				case 4:
+					s.Fetch = &Fetch{Type: "FIRST", N: 3}
+				case 5:
+					s.Offset, s.OffsetRows, s.Fetch = ip(2), true, &Fetch{Type: "NEXT", N: 3, WithTies: true}
+				case 6:
+					s.Limit, s.For = ip(1), &For{Lock: "UPDATE", SkipLocked: true}
+				}
+				yield("order-pairs", s.Build())
+			}
+		}
+	}
+	// set-operation chains of three with every ALL pattern and mixed operators
+	ops := []string{"UNION", "EXCEPT", "INTERSECT"}
+	for _, o1 := range ops {
+		for _, o2 := range ops {
+			for m := 0; m < 4; m++ {
+				yield("setop-chain3", SetOp(SetOp(simpleSel("t1"), o1, m&1 != 0, simpleSel("t2")), o2, m&2 != 0, simpleSel("t3")))
+			}
+		}
+	}
+}
+
 // QueryKinds yields the query statements used to fill statement-valued holes.
 func QueryKinds(depth int, yield func(name string, q S)) {
 	yield("plain", simpleSel("t6"))
@@ -768,6 +835,7 @@ func HoleShapes(yield func(hole string, s S)) {
 func All(thorough bool, yield func(name string, s S)) {
 	Shapes1(func(x X) { yield("shape1/where", selWhere(x)); yield("shape1/item", selItem(x)) })
 	ClauseOptions(func(n string, s S) { yield("clause/"+n, s) })
+	ClauseOptionPairs(func(n string, s S) { yield("clause2/"+n, s) })
 	DDLCases(func(n string, s S) { yield("ddl/"+n, s) })
 	DMLCases(func(n string, s S) { yield("dml/"+n, s) })
 	HoleCases(func(h, r string, s S) { yield("hole/"+h+"/"+r, s) })
